@@ -6,6 +6,8 @@ lean/PyYetiVerif/Generated/ParFootprintParent.lean:
   * `decision`   : `srs._process_parallel` as a table (accepted options, the conjuncts of the
                    'auto' rule with their comparison operators and thresholds, the if/elif chain that
                    caps the worker count, the worker count of the serial path);
+  * `guard_srs`, `guard_fdepsd` : the override between the decision and the parallel / serial split (srs.srs: a
+                   `peak` function that cannot be pickled forces the serial path), or `present := false`;
   * `helpers`    : the shared-memory helpers (`createSharedArray`, `copyToSharedArray`, the
                    `np.frombuffer` views of the pool initialisers): element type of the RawArray, dtype
                    of the views, copy statement;
@@ -382,6 +384,33 @@ def _walk_par_ifs(stmts, guard, out):
                     raise TieBroken("`if parallel == 'yes'` inside a loop / with / try")
 
 
+def _is_pickle_guard(st):
+    """`if parallel == <mode> and not isinstance(<x>, str):  try: pickle.dumps(<f>)  except <E>: parallel = <mode'>`"""
+    if not (isinstance(st, ast.If) and not st.orelse and isinstance(st.test, ast.BoolOp) and isinstance(st.test.op, ast.And)
+            and len(st.test.values) == 2):
+        return False
+    a, b = st.test.values
+    if not (isinstance(a, ast.Compare) and _u(a.left) == "parallel" and len(a.ops) == 1 and isinstance(a.ops[0], ast.Eq)
+            and isinstance(a.comparators[0], ast.Constant) and isinstance(a.comparators[0].value, str)):
+        return False
+    if not (isinstance(b, ast.UnaryOp) and isinstance(b.op, ast.Not) and isinstance(b.operand, ast.Call)
+            and _u(b.operand.func) == "isinstance" and len(b.operand.args) == 2 and _u(b.operand.args[1]) == "str"):
+        return False
+    if len(st.body) != 1 or not isinstance(st.body[0], ast.Try):
+        return False
+    t = st.body[0]
+    if t.orelse or t.finalbody or len(t.body) != 1 or len(t.handlers) != 1:
+        return False
+    if not (isinstance(t.body[0], ast.Expr) and isinstance(t.body[0].value, ast.Call)):
+        return False
+    h = t.handlers[0]
+    if h.type is None or h.name is not None or len(h.body) != 1:
+        return False
+    asg = h.body[0]
+    return (isinstance(asg, ast.Assign) and len(asg.targets) == 1 and isinstance(asg.targets[0], ast.Name)
+            and isinstance(asg.value, ast.Constant) and isinstance(asg.value.value, str))
+
+
 def _count_calls(stmts, name):
     n = 0
     for st in stmts:
@@ -415,8 +444,35 @@ def extract_routine(tree, fname, routine, workers_by_name):
     # may look at the user's option) are not part of the parallel / serial split
     if dec[0] not in body:
         raise TieBroken("%s: the call of _process_parallel is not a top-level statement" % where)
+    after = body[body.index(dec[0]) + 1:]
+    # the post-decision override (srs.srs: a `peak` function that cannot be pickled forces the serial path):
+    # recognised literally, directly after the decision; any OTHER assignment to `parallel` / `ncpu` after the
+    # decision is outside the grammar
+    pguard = {"present": False, "when_mode": "", "not_str_of": "", "probe": "", "handler": "", "fail_var": "", "fail_mode": ""}
+    if after and _is_pickle_guard(after[0]):
+        g = after[0]
+        t = g.body[0]
+        pguard = {
+            "present": True,
+            "when_mode": g.test.values[0].comparators[0].value,
+            "not_str_of": _u(g.test.values[1].operand.args[0]),
+            "probe": _u(t.body[0].value),
+            "handler": _u(t.handlers[0].type),
+            "fail_var": t.handlers[0].body[0].targets[0].id,
+            "fail_mode": t.handlers[0].body[0].value.value,
+        }
+        after = after[1:]
+    for st in after:
+        for node in ast.walk(st):
+            tg = []
+            if isinstance(node, ast.Assign):
+                tg = [e for t in node.targets for e in ast.walk(t)]
+            elif isinstance(node, (ast.AugAssign, ast.AnnAssign)):
+                tg = list(ast.walk(node.target))
+            if any(isinstance(e, ast.Name) and e.id in ("parallel", "ncpu") for e in tg):
+                raise TieBroken("%s: `%s` changes the decision after _process_parallel outside the grammar" % (where, _u(node)))
     pifs = []
-    _walk_par_ifs(body[body.index(dec[0]) + 1:], [], pifs)
+    _walk_par_ifs(after, [], pifs)
     # number of tasks
     lf = [st for st in ast.walk(fn) if _assign_to(st, "LF")]
     if len(lf) != 1:
@@ -479,6 +535,7 @@ def extract_routine(tree, fname, routine, workers_by_name):
     return {
         "routine": where, "sites": sites, "par_allocs": par_allocs, "ser_allocs": ser_allocs, "decision_call": dcall,
         "lf_of": lf_of, "wn_name": wn_name, "wn_expr": wn_expr, "tail_mentions_parallel": tail_par, "eqsine": eqs,
+        "guard": pguard,
         "tail_meth_calls": _count_calls(tail, "methfunc"),
     }
 
@@ -838,6 +895,15 @@ def render(parent, workers):
         "    initViewDtypes := %s }" % _sl(init_dtypes),
         "",
     ]
+    for r in parent["routines"]:
+        g = r["guard"]
+        L += [
+            "def guard_%s : PickleGuard :=" % r["routine"].split(".")[1],
+            "  { present := %s, whenMode := %s, notStrOf := %s, probe := %s" % (
+                "true" if g["present"] else "false", _s(g["when_mode"]), _s(g["not_str_of"]), _s(g["probe"])),
+            "    handler := %s, failVar := %s, failMode := %s }" % (_s(g["handler"]), _s(g["fail_var"]), _s(g["fail_mode"])),
+            "",
+        ]
     names = []
     for r in parent["routines"]:
         for k, s in enumerate(r["sites"]):
